@@ -1,13 +1,162 @@
 /-
 C05 — property theorems (MRS → EDS conversion is total and dependency-sound on well-formed input).
+
+Only property statements live here; the proofs are references to `Lemmas.lean`.  Vocabulary
+(defined in `Lemmas.lean`, all in terms of the SOURCE MRS):
+
+* `NoReserved m`      no ARG0 has the sort `_` or `q` (the sorts of generated ids `_k`, `qk`);
+* `NodeData m p n`    node `n` carries predicate, CARG, lnk, surface, base of predication `p` and the
+                      sort and properties of its ARG0 (`none` / `[]` for a quantifier);
+* `BVJust s r t`      `r = BV`, `s` is a quantifier, `t` is not, and they have the same ARG0;
+* `ArgJust m s r t`   `s` has an argument `(r, v)`, `r ≠ ARG0`, and `v` is the ARG0 of the
+                      non-quantifier `t`, or the label of `t`, or the `hi` of an hcons whose `lo` is
+                      the label of `t`;
+* `PMJust E s r t`    `r = ARG1`, `s` and `t` have the same label and are not connected in the
+                      undirected graph `E`;
+* `EdgeJust m on E`   `BVJust ∨ ArgJust ∨ (on ∧ PMJust E)`;
+* `Justified m J ns`  for the node at position `i` and each of its edges `(r, tgt)` there is a
+                      position `j` with `ns[j].id = tgt` and `J preds[i] r preds[j]`.
+
+Hypotheses of the main theorems: `NoReserved m` and `m.hasCompleteIVs` (part of the
+intrinsic-variable property); neither connectedness nor scope plausibility is needed for soundness.
 -/
-import Verif.C05.Model
+import Verif.C05.Lemmas
 
 namespace Verif.C05
 open Verif.Sem
 
-/-- placeholder while the harness is brought up -/
-theorem firstRep_ok_iff (ps : List Pred) : (∃ v, firstRep ps = .ok v) ↔ ps ≠ [] := by
-  cases ps <;> simp [firstRep]
+/-! ## "unique predication ids in MRS" (`_uniquify_ids`) -/
+
+/-- The EP ids after `_uniquify_ids` are pairwise distinct when every non-quantifier EP has an
+ARG0 and no ARG0 is of the form `_k`. -/
+theorem uniquifyIds_nodup (m : MRS) (hnr : NoReserved m) (hc : m.hasCompleteIVs = true) :
+    m.ids.Nodup := ids_nodup hnr hc
+
+/-- The hypothesis is needed: two EPs without ARG0 in an MRS whose largest variable id is 0 both
+get the id `_0`. -/
+theorem uniquifyIds_cex :
+    ¬ (MRS.ids { top := none, index := none, hcons := [],
+                 rels := [{ predicate := "a", label := ⟨"h", 0⟩, args := [] },
+                          { predicate := "b", label := ⟨"h", 0⟩, args := [] }] }).Nodup := by
+  decide
+
+/-! ## "yields one node per predication, in order, carrying its predicate, constant, alignment and
+the type and properties of its intrinsic variable" -/
+
+/-- Shape: for every configuration (also a user-supplied predicate-modifier function), a
+successful conversion has exactly one node per predication, in `rels` order, with the data of
+that predication; with `unique_ids=False` the node id is the EP id. -/
+theorem fromMrs_shape (pm : PM) (uniq : Bool) (m : MRS) (hnr : NoReserved m)
+    (e : EDS) (w : List Warn) (h : fromMrs pm uniq m = .ok (e, w)) :
+    e.nodes.length = m.rels.length ∧
+    All2 (fun p n => NodeData m p n ∧ (uniq = false → n.id = p.1)) m.preds e.nodes := by
+  have := fromMrs_shape_aux hnr h
+  exact ⟨by rw [← this.length_eq, ← preds_map_snd m, List.length_map], this⟩
+
+/-! ## "Every edge is justified by the source … and every edge ending at a node" -/
+
+/-- Edge justification and closedness.  For `predicate_modifiers ∈ {False, True}` and both values of
+`unique_ids`: every edge `(role, tgt)` of the node of predication `s` ends at the node of a
+predication `t` (so every edge ends at a node) and is
+  * a `BV` edge from a quantifier to the non-quantifier with the same ARG0, or
+  * justified by an argument of `s` with that role whose value is the intrinsic variable of `t`,
+    the label of `t`'s scope, or a hole constrained (hcons) to that label, or
+  * (only with predicate modifiers on) an `ARG1` edge between two predications with the same label
+    that are not connected in the dependency graph of the conversion without predicate modifiers
+    (`e0`, which exists and carries the same warnings). -/
+theorem fromMrs_edges_justified (pm : PM) (uniq : Bool) (m : MRS)
+    (hnr : NoReserved m) (hc : m.hasCompleteIVs = true) (hpm : pm = .off ∨ pm = .std)
+    (e : EDS) (w : List Warn) (h : fromMrs pm uniq m = .ok (e, w)) :
+    ∃ e0, fromMrs .off false m = .ok (e0, w) ∧
+      Justified m (EdgeJust m pm.isOn (edgePairs e0.nodes)) e.nodes := by
+  obtain ⟨e0, h0, _, hJ, _⟩ := fromMrs_spec (ids_nodup hnr hc) hnr hpm h
+  exact ⟨e0, h0, hJ⟩
+
+/-- "every edge ending at a node" -/
+theorem fromMrs_edges_closed (pm : PM) (uniq : Bool) (m : MRS)
+    (hnr : NoReserved m) (hc : m.hasCompleteIVs = true) (hpm : pm = .off ∨ pm = .std)
+    (e : EDS) (w : List Warn) (h : fromMrs pm uniq m = .ok (e, w)) :
+    ∀ n ∈ e.nodes, ∀ rt ∈ n.edges, rt.2 ∈ e.nodes.map (·.id) := by
+  obtain ⟨_, _, hN, hJ, _⟩ := fromMrs_spec (ids_nodup hnr hc) hnr hpm h
+  intro n hn rt hrt
+  obtain ⟨p, _, hz, _⟩ := hN.mem_left n hn
+  obtain ⟨qn, hqn, hid, _⟩ := hJ (p, n) hz rt hrt
+  exact List.mem_map.2 ⟨qn.2, (List.of_mem_zip hqn).2, hid⟩
+
+/-- "a top that is a node": whenever the result has a top, it is the identifier of a node. -/
+theorem fromMrs_top_is_node (pm : PM) (uniq : Bool) (m : MRS)
+    (hnr : NoReserved m) (hc : m.hasCompleteIVs = true) (hpm : pm = .off ∨ pm = .std)
+    (e : EDS) (w : List Warn) (h : fromMrs pm uniq m = .ok (e, w)) (t : Var) (ht : e.top = some t) :
+    t ∈ e.nodes.map (·.id) := by
+  obtain ⟨_, _, _, _, hT⟩ := fromMrs_spec (ids_nodup hnr hc) hnr hpm h
+  obtain ⟨pn, hpn, hid⟩ := hT t ht
+  exact List.mem_map.2 ⟨pn.2, (List.of_mem_zip hpn).2, hid⟩
+
+/-! ## "with unique node identifiers" -/
+
+-- FULL STATEMENT (not proved): for `unique_ids = true` too, under `m.hasIVProperty` and
+-- `NoReserved m`, `(e.nodes.map (·.id)).Nodup` (the ids given by `make_ids_unique`).  The missing
+-- part is the analysis of the two loops of `make_ids_unique` (`newIds`); it is covered by the
+-- direct oracle and the correspondence run on every generated case.
+/-- With `unique_ids=False` the node identifiers are the EP ids, hence pairwise distinct. -/
+theorem fromMrs_ids_unique_partial (pm : PM) (m : MRS)
+    (hnr : NoReserved m) (hc : m.hasCompleteIVs = true)
+    (e : EDS) (w : List Warn) (h : fromMrs pm false m = .ok (e, w)) :
+    e.nodes.map (·.id) = m.ids ∧ (e.nodes.map (·.id)).Nodup := by
+  have hids := fromMrs_ids_raw hnr h
+  exact ⟨hids, by rw [hids]; exact ids_nodup hnr hc⟩
+
+/-! ## "Converting any well-formed MRS to EDS succeeds without error" — known finding F08 -/
+
+-- FULL STATEMENT (not proved): `m.isWellFormed → ∃ e, fromMrs pm uniq m = .ok (e, [])`.
+-- It is FALSE for the code (F08): `scope.representatives` gives a scope no representative when
+-- its members take each other as non-scopal arguments, and `reps[lbl][0]` raises IndexError.
+-- The forced hypothesis is `HasReps` (every scope has a representative); the totality proof under
+-- it is not done — totality and absence of warnings are checked by the direct oracle.
+/-- F08: a well-formed MRS on which the conversion raises `IndexError` (for every configuration). -/
+def f08Witness : MRS :=
+  { top := some ⟨"h", 0⟩, index := some ⟨"e", 2⟩,
+    rels := [{ predicate := "_a_v_1", label := ⟨"h", 1⟩, args := [("ARG0", ⟨"e", 2⟩), ("ARG1", ⟨"e", 3⟩)] },
+             { predicate := "_b_v_1", label := ⟨"h", 1⟩, args := [("ARG0", ⟨"e", 3⟩), ("ARG1", ⟨"e", 2⟩)] }],
+    hcons := [⟨⟨"h", 0⟩, "qeq", ⟨"h", 1⟩⟩] }
+
+def raisesIndexError {α : Type} : Except E α → Bool
+  | .error .indexError => true
+  | _ => false
+
+set_option maxRecDepth 100000 in
+/-- the witness is well-formed (connected, intrinsic-variable property, scope-plausible) and the
+conversion raises `IndexError` with and without predicate modifiers / unique ids. -/
+theorem fromMrs_total_cex_F08 :
+    f08Witness.isWellFormed = true ∧
+    raisesIndexError (fromMrs .std true f08Witness) = true ∧
+    raisesIndexError (fromMrs .std false f08Witness) = true ∧
+    raisesIndexError (fromMrs .off true f08Witness) = true ∧
+    raisesIndexError (fromMrs .off false f08Witness) = true := by decide
+
+/-! ## hypotheses are satisfiable / statements are not vacuous -/
+
+/-- "The dog barks": well-formed, no reserved sorts, converts to three nodes. -/
+def dogBarks : MRS :=
+  { top := some ⟨"h", 0⟩, index := some ⟨"e", 2⟩,
+    rels := [{ predicate := "_the_q", label := ⟨"h", 4⟩,
+               args := [("ARG0", ⟨"x", 3⟩), ("RSTR", ⟨"h", 5⟩), ("BODY", ⟨"h", 6⟩)] },
+             { predicate := "_dog_n_1", label := ⟨"h", 7⟩, args := [("ARG0", ⟨"x", 3⟩)] },
+             { predicate := "_bark_v_1", label := ⟨"h", 1⟩, args := [("ARG0", ⟨"e", 2⟩), ("ARG1", ⟨"x", 3⟩)] }],
+    hcons := [⟨⟨"h", 0⟩, "qeq", ⟨"h", 1⟩⟩, ⟨⟨"h", 5⟩, "qeq", ⟨"h", 7⟩⟩] }
+
+set_option maxRecDepth 100000 in
+example : dogBarks.isWellFormed = true ∧ dogBarks.hasCompleteIVs = true ∧
+    (match fromMrs .std true dogBarks with
+     | .ok (e, w) => e.top == some ⟨"e", 2⟩ && w.isEmpty &&
+         e.nodes.map (fun n => (n.id, n.edges)) ==
+           [(⟨"_", 1⟩, [("BV", ⟨"x", 3⟩)]), (⟨"x", 3⟩, []), (⟨"e", 2⟩, [("ARG1", ⟨"x", 3⟩)])]
+     | .error _ => false) = true := by decide
+
+example : NoReserved dogBarks := by
+  intro ep hep v hv
+  simp only [dogBarks, List.mem_cons, List.not_mem_nil, or_false] at hep
+  rcases hep with rfl | rfl | rfl <;>
+    (simp only [EP.iv, dlookup, INTRINSIC_ROLE] at hv; simp at hv; subst hv; decide)
 
 end Verif.C05
